@@ -1,5 +1,6 @@
 """Witness F-C06-shared-default (repaired): two children of a glob port get their variable from one schema default ({}); an _add through the dict_value
-updater to one child also changed the other (same object).  Exit 1 while the defect is present."""
+updater to one child also changed the other (same object).  Second case: a NESTED default ({'glc': {'count': 0}}) -- the children must not share the
+inner dictionaries either, nor with the schema default that later children start from.  Exit 1 while the defect is present."""
 import sys
 from vivarium.core.store import Store
 s=Store({'g': {'*': {'d': {'_default': {}, '_updater': 'dict_value'}}}})
@@ -7,4 +8,12 @@ s.set_value({'g': {'x': {}, 'y': {}}}); s.apply_defaults()
 s.apply_update({'g': {'x': {'d': {'_add': [{'key': 'k', 'state': 1}]}}}})
 v=s.get_value()['g']
 print(v)
-sys.exit(0 if v=={'x': {'d': {'k': 1}}, 'y': {'d': {}}} else 1)
+ok = v=={'x': {'d': {'k': 1}}, 'y': {'d': {}}}
+n=Store({'g': {'*': {'pool': {'_default': {'glc': {'count': 0}}, '_updater': 'dict_value'}}}})
+n.set_value({'g': {'a': {}, 'b': {}}}); n.apply_defaults()
+n.apply_update({'g': {'a': {'pool': {'glc': {'count': 5}}}}})
+n.apply_update({'g': {'_add': [{'key': 'c', 'state': {}}]}})
+w=n.get_value()['g']
+print(w)
+ok = ok and w=={'a': {'pool': {'glc': {'count': 5}}}, 'b': {'pool': {'glc': {'count': 0}}}, 'c': {'pool': {'glc': {'count': 0}}}}
+sys.exit(0 if ok else 1)
